@@ -46,6 +46,8 @@ ASSUMPTIONS = [
     "tangency; entries of near-tangent pairs are compared with the unit loop only",
     "Fubini-Study radius uses the metric of diameter pi/2 (a disk of FS radius rho around the "
     "origin is |z| < tan(rho)), as the library's fs_diameter of a hemisphere, pi/2, fixes",
+    "centres are 0 or of modulus >= 1e-6 times the radius scale (a centre of modulus < 1e-154 "
+    "makes |c|^2 underflow inside CP1Disk's direction normalisation; not explored)",
     "float64 / complex128 only",
 ]
 
@@ -175,6 +177,8 @@ def disk_relative(draw, A, out=None):
     else:                                            # circles cross
         lo, hi = t1 + m * big, t2 * (1 - m)
         d = lo + f * (hi - lo) if hi > lo else t2 * (1 + m)
+    if d < 1e-6 * big:
+        d = 0.0              # concentric; no centres at underflow distance from one another
     th = draw(angle())
     cb = ca + d * cmath.exp(1j * th)
     return dict(c=cj(cb), r=rb, out=draw(st.booleans()) if out is None else out)
@@ -215,6 +219,8 @@ def mob_params(draw, where=None):
         rho = 0.0
     elif kind == "inside":
         rho = draw(fl(0.0, 0.95))
+        if rho < 1e-6:
+            rho = 0.0
     else:
         rho = math.exp(draw(fl(math.log(1.05), math.log(30.0))))
     return dict(kind="gen", rho=rho, phi=draw(angle()), q=draw(cplx(0.01, 20.0, zero=True)),
@@ -279,6 +285,9 @@ def build_cr(disks, single):
     cs = np.array([d[0] for d in disks], dtype=complex)
     rs = np.array([d[1] for d in disks], dtype=float)
     outs = np.array([d[2] for d in disks], dtype=bool)
+    if np.any((np.abs(cs) > 0) & (np.abs(cs) < 1e-140)):
+        # |c|^2 underflows: outside the explored domain (see ASSUMPTIONS), a generator bug
+        raise HarnessError("centre of underflow size handed to CP1Disk: %r" % (cs,))
     if single:
         D = CP1Disk(np.array(cs[0]), np.array(rs[0]))
         return D.complement() if outs[0] else D
@@ -988,21 +997,21 @@ def body_unit(case, ctx):
 
 LAWS = [
     Law("spherical_roundtrip_stereographic", points_case(), body_spherical, nt_points,
-        quick=250, thorough=2500, shards=(1, 4)),
+        quick=250, thorough=1500, shards=(1, 4)),
     Law("affine_disk_reports", affine_disk_case(), body_affine_disk, nt_centre, quick=250,
-        thorough=2500, shards=(1, 4)),
-    Law("fs_disk_reports", fs_case(), body_fs, nt_fs, quick=250, thorough=2500,
+        thorough=1500, shards=(1, 4)),
+    Law("fs_disk_reports", fs_case(), body_fs, nt_fs, quick=250, thorough=1500,
         shards=(1, 4)),
-    Law("moebius_image", moebius_case(), body_moebius, nt_centre, quick=250, thorough=2500,
+    Law("moebius_image", moebius_case(), body_moebius, nt_centre, quick=250, thorough=1200,
         shards=(2, 6)),
     Law("complement_involution", complement_case(), body_complement, nt_centre, quick=200,
-        thorough=2000, shards=(2, 6)),
+        thorough=1000, shards=(2, 6)),
     Law("containment_truth_table", relation_case(), body_relation_elementwise("contains"),
-        nt_relation, quick=250, thorough=2500, shards=(2, 6)),
+        nt_relation, quick=250, thorough=1200, shards=(2, 6)),
     Law("intersection_truth_table", relation_case(), body_relation_elementwise("intersects"),
-        nt_relation, quick=250, thorough=2500, shards=(2, 6)),
+        nt_relation, quick=250, thorough=1200, shards=(2, 6)),
     Law("pairwise_truth_table_vs_loop", relation_case(pairwise=True), body_relation_pairwise,
-        nt_relation, quick=150, thorough=1500, shards=(2, 6)),
-    Law("unit_disks_work", unit_case(), body_unit, nt_centre, quick=200, thorough=2000,
+        nt_relation, quick=150, thorough=800, shards=(2, 6)),
+    Law("unit_disks_work", unit_case(), body_unit, nt_centre, quick=200, thorough=1000,
         shards=(2, 6)),
 ]
